@@ -33,17 +33,14 @@ theorem mem_allowed_verdict (c : Nat) (v : Bool) (i : Nat) (hi : i < cfg.n) (hb 
   have hv : v ∈ answersIn cfg c := (mem_answersIn cfg c v).mpr ⟨i, hi, hb⟩
   have hne : answersIn cfg c ≠ [] := List.ne_nil_of_mem hv
   unfold allowed
-  simp only [List.isEmpty_map, List.isEmpty_iff, hne, Bool.false_and, decide_false]
-  split <;> simp [hv]
+  cases he : cfg.eoe <;> simp [hne, hv]
 
 theorem mem_allowed_member (c i : Nat) (e : Exn) (he : cfg.eoe = true) (hi : i < cfg.n)
     (hb : cfg.beh c i = .raise e) : Outcome.error (.member i e) ∈ allowed cfg c := by
   have hm : (i, e) ∈ raisesIn cfg c := (mem_raisesIn cfg c i e).mpr ⟨hi, hb⟩
   have hne : raisesIn cfg c ≠ [] := List.ne_nil_of_mem hm
   unfold allowed
-  simp only [he, List.isEmpty_map, List.isEmpty_iff, hne, Bool.and_false, decide_false, if_true]
-  simp
-  exact Or.inr ⟨i, e, hm, rfl, rfl⟩
+  simp [he, hne, hm]
 
 theorem mem_allowed_allFailed (c : Nat) (h : errOK cfg c .allFailed) : Outcome.error .allFailed ∈ allowed cfg c := by
   obtain ⟨h1, h2⟩ := h
@@ -77,5 +74,190 @@ theorem outcome_allowed (s : State) (h : Reach cfg s) :
     cases e with
     | member i e' => exact mem_allowed_member cfg _ i e' this.1 this.2.1 this.2.2
     | allFailed => exact mem_allowed_allFailed cfg _ this
+
+/-! ### completeness: every element of `allowed` is the outcome of some schedule -/
+
+inductive IStar : State → State → Prop
+  | refl (s : State) : IStar s s
+  | tail (s t u : State) : IStar s t → IStep cfg t u → IStar s u
+
+theorem IStar.head (s t u : State) (h : IStep cfg s t) (h2 : IStar cfg t u) : IStar cfg s u := by
+  induction h2 with
+  | refl => exact IStar.tail s s t (IStar.refl s) h
+  | tail t' u' _ hst ih => exact IStar.tail s t' u' ih hst
+
+theorem reach_istar (s t : State) (hr : Reach cfg s) (h : IStar cfg s t) : Reach cfg t := by
+  induction h with
+  | refl => exact hr
+  | tail t u _ hst ih => exact Reach.step t u ih (Step.internal t u hst)
+
+theorem inev_exists (P : State → Prop) (s : State) (h : Inev cfg P s) : ∃ t, IStar cfg s t ∧ P t := by
+  induction h with
+  | now s hp => exact ⟨s, IStar.refl s, hp⟩
+  | later s hex _ ih =>
+    obtain ⟨t, hst⟩ := hex
+    obtain ⟨u, hu, hp⟩ := ih t hst
+    exact ⟨u, IStar.head cfg s t u hst hu, hp⟩
+
+theorem quiescent_of_done (p : PSt) (h1 : solvePhase p) (h2 : inSolve p = false) : quiescent p = true := by
+  rcases h1 with h | ⟨v, w, h⟩ | ⟨e, h⟩
+  · rw [h] at h2; simp at h2
+  · rw [h]; rfl
+  · rw [h]; rfl
+
+/-- every number of `solve()` calls is reachable (each call ends, so the next one can start) -/
+theorem reach_cycle (c : Nat) : ∃ s, Reach cfg s ∧ quiescent s.p = true ∧ s.cycle = c := by
+  induction c with
+  | zero => exact ⟨init, Reach.init, rfl, rfl⟩
+  | succ c ih =>
+    obtain ⟨s, hr, hq, hc⟩ := ih
+    have hr1 : Reach cfg (fresh cfg s) := Reach.step s _ hr (Step.user s _ (UStep.solveStart s hq))
+    obtain ⟨t, hst, ⟨_, hcy, hph⟩, hns⟩ := inev_exists cfg _ _ (solve_ends cfg (fresh cfg s) (inv_reach cfg _ hr1) rfl)
+    exact ⟨t, reach_istar cfg _ t hr1 hst, quiescent_of_done _ hph hns, by rw [hcy]; simp [fresh, hc]⟩
+
+theorem istep_killLosers (s t : State) (h : IStep cfg s t) (v : Bool) (w : Nat) (hs : ∃ k, s.p = .killLosers v w k) :
+    (∃ k, t.p = .killLosers v w k) ∨ t.p = .returned v w := by
+  obtain ⟨k, hk⟩ := hs
+  cases h <;> simp_all
+
+theorem istep_killAll (s t : State) (h : IStep cfg s t) (e : Err) (hs : ∃ k, s.p = .killAll e k) :
+    (∃ k, t.p = .killAll e k) ∨ t.p = .raised e := by
+  obtain ⟨k, hk⟩ := hs
+  cases h <;> simp_all
+
+/-- once the winner is chosen, every schedule ends with `solve()` returning its answer -/
+theorem killLosers_returns (s : State) (hi : Inv cfg s) (v : Bool) (w k : Nat) (hp : s.p = .killLosers v w k) :
+    ∃ t, IStar cfg s t ∧ t.p = .returned v w ∧ t.cycle = s.cycle := by
+  have := inev_of_progress cfg
+    (fun t => Inv cfg t ∧ t.cycle = s.cycle ∧ ((∃ k, t.p = .killLosers v w k) ∨ t.p = .returned v w))
+    (fun t => t.p = .returned v w) ?_ ?_ s ⟨hi, rfl, Or.inl ⟨k, hp⟩⟩
+  · obtain ⟨t, hst, ⟨_, hc, _⟩, hp'⟩ := inev_exists cfg _ _ this
+    exact ⟨t, hst, hp', hc⟩
+  · intro a b ⟨h1, h2, h3⟩ hP hst
+    have ha : ∃ k, a.p = .killLosers v w k := by rcases h3 with h3 | h3; exact h3; exact absurd h3 hP
+    exact ⟨inv_istep cfg a b h1 hst, by rw [istep_cycle cfg a b hst, h2], istep_killLosers cfg a b hst v w ha⟩
+  · intro a ⟨h1, _, h3⟩ hP
+    have ha : ∃ k, a.p = .killLosers v w k := by rcases h3 with h3 | h3; exact h3; exact absurd h3 hP
+    obtain ⟨k', hk'⟩ := ha
+    exact progress_solve cfg a h1 (by rw [hk']; rfl)
+
+theorem killAll_raises (s : State) (hi : Inv cfg s) (e : Err) (k : Nat) (hp : s.p = .killAll e k) :
+    ∃ t, IStar cfg s t ∧ t.p = .raised e ∧ t.cycle = s.cycle := by
+  have := inev_of_progress cfg
+    (fun t => Inv cfg t ∧ t.cycle = s.cycle ∧ ((∃ k, t.p = .killAll e k) ∨ t.p = .raised e))
+    (fun t => t.p = .raised e) ?_ ?_ s ⟨hi, rfl, Or.inl ⟨k, hp⟩⟩
+  · obtain ⟨t, hst, ⟨_, hc, _⟩, hp'⟩ := inev_exists cfg _ _ this
+    exact ⟨t, hst, hp', hc⟩
+  · intro a b ⟨h1, h2, h3⟩ hP hst
+    have ha : ∃ k, a.p = .killAll e k := by rcases h3 with h3 | h3; exact h3; exact absurd h3 hP
+    exact ⟨inv_istep cfg a b h1 hst, by rw [istep_cycle cfg a b hst, h2], istep_killAll cfg a b hst e ha⟩
+  · intro a ⟨h1, _, h3⟩ hP
+    have ha : ∃ k, a.p = .killAll e k := by rcases h3 with h3 | h3; exact h3; exact absurd h3 hP
+    obtain ⟨k', hk'⟩ := ha
+    exact progress_solve cfg a h1 (by rw [hk']; rfl)
+
+/-- the schedule "member `i` finishes first and the parent reads its message at once" -/
+theorem first_message (s0 : State) (hr : Reach cfg s0) (hq : quiescent s0.p = true) (i : Nat) (hi : i < cfg.n) (m : Msg)
+    (hm : afterSolve i (cfg.beh (s0.cycle + 1) i) = .putting m) :
+    ∃ s, Reach cfg s ∧ s.cycle = s0.cycle + 1 ∧ s.p = .waiting ∧ s.queue = [m] := by
+  let s1 := fresh cfg s0
+  have hr1 : Reach cfg s1 := Reach.step s0 _ hr (Step.user s0 _ (UStep.solveStart s0 hq))
+  have h1 : s1.ms[i]? = some .solving := by simp [s1, fresh, hi]
+  let s2 : State := { s1 with ms := s1.ms.set i (afterSolve i (cfg.beh s1.cycle i)) }
+  have hr2 : Reach cfg s2 := Reach.step s1 _ hr1 (Step.internal s1 _ (IStep.finish s1 i h1))
+  have h2 : s2.ms[i]? = some (.putting m) := by
+    have : s1.cycle = s0.cycle + 1 := rfl
+    simp only [s2, this, hm]
+    exact get_set_eq h1
+  let s3 : State := { s2 with ms := s2.ms.set i (afterFlush m), queue := s2.queue ++ [m] }
+  have hr3 : Reach cfg s3 := Reach.step s2 _ hr2 (Step.internal s2 _ (IStep.flush s2 i m h2))
+  exact ⟨s3, hr3, rfl, rfl, rfl⟩
+
+theorem allowed_eq (c : Nat) : allowed cfg c =
+    if cfg.eoe = true then
+      (if answersIn cfg c = [] ∧ raisesIn cfg c = [] then [Outcome.error .allFailed]
+       else (answersIn cfg c).map Outcome.verdict ++
+            (raisesIn cfg c).map (fun ie => Outcome.error (.member ie.1 ie.2)))
+    else (if answersIn cfg c = [] then [Outcome.error .allFailed] else (answersIn cfg c).map Outcome.verdict) := by
+  unfold allowed
+  cases cfg.eoe <;> cases answersIn cfg c <;> cases raisesIn cfg c <;> simp
+
+theorem mem_allowed_cases (c : Nat) (o : Outcome) (ho : o ∈ allowed cfg c) :
+    (∃ v, o = .verdict v ∧ v ∈ answersIn cfg c) ∨
+    (cfg.eoe = true ∧ ∃ i e, o = .error (.member i e) ∧ (i, e) ∈ raisesIn cfg c) ∨
+    (o = .error .allFailed ∧ answersIn cfg c = [] ∧ (cfg.eoe = true → raisesIn cfg c = [])) := by
+  rw [allowed_eq] at ho
+  split at ho
+  · rename_i he
+    split at ho
+    · rename_i h
+      exact Or.inr (Or.inr ⟨List.mem_singleton.mp ho, h.1, fun _ => h.2⟩)
+    · rcases List.mem_append.mp ho with h | h
+      · obtain ⟨v, hv, rfl⟩ := List.mem_map.mp h
+        exact Or.inl ⟨v, rfl, hv⟩
+      · obtain ⟨⟨i, e⟩, hm, rfl⟩ := List.mem_map.mp h
+        exact Or.inr (Or.inl ⟨he, i, e, rfl, hm⟩)
+  · rename_i he
+    split at ho
+    · rename_i h
+      exact Or.inr (Or.inr ⟨List.mem_singleton.mp ho, h, fun h' => absurd h' he⟩)
+    · obtain ⟨v, hv, rfl⟩ := List.mem_map.mp ho
+      exact Or.inl ⟨v, rfl, hv⟩
+
+/-- **Completeness of the closed form**: every outcome in `allowed (c+1)` is the outcome of `solve()` number `c+1` on
+    some schedule.  Together with `outcome_allowed`: `allowed` is exactly the set of possible outcomes, and
+    `blocked` is never one of them. -/
+theorem allowed_reachable (c : Nat) (o : Outcome) (ho : o ∈ allowed cfg (c + 1)) :
+    ∃ s, Reach cfg s ∧ s.cycle = c + 1 ∧ quiescent s.p = true ∧ outcomeOf s = o := by
+  obtain ⟨s0, hr0, hq0, hc0⟩ := reach_cycle cfg c
+  -- which kind of outcome is it?
+  have hcases : (∃ v i, o = .verdict v ∧ i < cfg.n ∧ cfg.beh (c + 1) i = .answer v) ∨
+      (∃ i e, o = .error (.member i e) ∧ cfg.eoe = true ∧ i < cfg.n ∧ cfg.beh (c + 1) i = .raise e) ∨
+      (o = .error .allFailed ∧ answersIn cfg (c + 1) = [] ∧ (cfg.eoe = true → raisesIn cfg (c + 1) = [])) := by
+    have hmem := mem_allowed_cases cfg (c + 1) o ho
+    rcases hmem with ⟨v, rfl, hv'⟩ | ⟨he, i, e, rfl, hm⟩ | h3
+    · obtain ⟨i, hi, hb⟩ := (mem_answersIn cfg _ v).mp hv'
+      exact Or.inl ⟨v, i, rfl, hi, hb⟩
+    · obtain ⟨hi, hb⟩ := (mem_raisesIn cfg _ i e).mp hm
+      exact Or.inr (Or.inl ⟨i, e, rfl, he, hi, hb⟩)
+    · exact Or.inr (Or.inr h3)
+  rcases hcases with ⟨v, i, rfl, hi, hb⟩ | ⟨i, e, rfl, he, hi, hb⟩ | ⟨rfl, hv, hr⟩
+  · obtain ⟨s, hrs, hcs, hps, hqs⟩ := first_message cfg s0 hr0 hq0 i hi (.ans i v) (by rw [hc0, hb]; rfl)
+    let s' : State := { s with queue := [], p := .killLosers v i 0 }
+    have hr' : Reach cfg s' := Reach.step s _ hrs (Step.internal s _ (IStep.getAns s i v [] hps hqs))
+    obtain ⟨t, hst, hpt, hct⟩ := killLosers_returns cfg s' (inv_reach cfg _ hr') v i 0 rfl
+    exact ⟨t, reach_istar cfg _ t hr' hst, by rw [hct]; simp [s', hcs, hc0], by rw [hpt]; rfl, by simp [outcomeOf, hpt]⟩
+  · obtain ⟨s, hrs, hcs, hps, hqs⟩ := first_message cfg s0 hr0 hq0 i hi (.exn i e) (by rw [hc0, hb]; rfl)
+    let s' : State := { s with queue := [], p := .killAll (.member i e) 0 }
+    have hr' : Reach cfg s' := Reach.step s _ hrs (Step.internal s _ (IStep.getExnExit s i e [] hps he hqs))
+    obtain ⟨t, hst, hpt, hct⟩ := killAll_raises cfg s' (inv_reach cfg _ hr') (.member i e) 0 rfl
+    exact ⟨t, reach_istar cfg _ t hr' hst, by rw [hct]; simp [s', hcs, hc0], by rw [hpt]; rfl, by simp [outcomeOf, hpt]⟩
+  · have hr1 : Reach cfg (fresh cfg s0) := Reach.step s0 _ hr0 (Step.user s0 _ (UStep.solveStart s0 hq0))
+    have hcy : (fresh cfg s0).cycle = c + 1 := by simp [fresh, hc0]
+    have hfail : ∀ i, i < cfg.n → ∀ v, cfg.beh (fresh cfg s0).cycle i ≠ .answer v := by
+      intro i hi v hb
+      have : v ∈ answersIn cfg (c + 1) := (mem_answersIn cfg _ v).mpr ⟨i, hi, hcy ▸ hb⟩
+      rw [hv] at this; simp at this
+    obtain ⟨t, hst, e, hpt, hok, hall⟩ := inev_exists cfg _ _ (all_fail_error cfg _ hr1 rfl hfail)
+    have hrt := reach_istar cfg _ t hr1 hst
+    have hct : t.cycle = c + 1 := by
+      have : ∀ a b, IStar cfg a b → b.cycle = a.cycle := by
+        intro a b hab
+        induction hab with
+        | refl => rfl
+        | tail t u _ hst ih => rw [istep_cycle cfg t u hst, ih]
+      rw [this _ _ hst, hcy]
+    have he : e = .allFailed := by
+      cases hee : cfg.eoe with
+      | false => exact hall hee
+      | true =>
+        cases e with
+        | allFailed => rfl
+        | member i e' =>
+          obtain ⟨_, hi, hb⟩ := hok
+          have : (i, e') ∈ raisesIn cfg (c + 1) := (mem_raisesIn cfg _ i e').mpr ⟨hi, hcy ▸ hb⟩
+          rw [hr hee] at this; simp at this
+    subst he
+    exact ⟨t, hrt, hct, by rw [hpt]; rfl, by simp [outcomeOf, hpt]⟩
 
 end PySMT.Portfolio
